@@ -640,8 +640,8 @@ func (r *runner) runEvent(ev *eventSpec, origins []*originRead, obs map[string]a
 	}
 	if actLeak {
 		// observed: an applied update that does not assign sys.IsActive was built from an object whose
-		// activity is not the stored one (finding F-C03-2: the object's activity is written and logged)
-		r.tags["F-C03-2:unassigned-activity-from-stale-object"] = true
+		// activity is not the stored one (before 001f02315 the object's activity was written and logged: F-C03-2)
+		r.tags["unassigned-activity-from-stale-object"] = true
 	}
 	if staleDiffers {
 		// observed: BuildRawEvent and Apply accepted an update whose origin object is not the stored record
